@@ -31,6 +31,15 @@ Theorem C06_reply_line :
 Proof. exact makeReply_line. Qed.
 Print Assumptions C06_reply_line.
 
+(* Outside that domain the statement fails (finding C06.F47): the msgid of the triggering line is
+   server-controlled; tag escaping (regenerated SERVER_TAG_ESCAPE) has no image for NUL, so a NUL in it
+   reaches the line.  Needs experimentalExtensions + message-tags and a server that passes a NUL. *)
+Theorem C06_reply_tag_nul_refuted :
+  replytag_ok nul_tag_cfg = false /\ escape [0%N] = [0%N] /\
+  exists m, makeReply_real nul_tag_cfg [104; 105]%N = Ok m /\ ~ one_line (serialize m).
+Proof. exact reply_tag_nul_refuted. Qed.
+Print Assumptions C06_reply_tag_nul_refuted.
+
 (* ... and it does return a message (no AssertionError) whenever the names it copies from the
    triggering message / to= are line-safe: the user's text alone can never make it fail. *)
 Theorem C06_reply_never_raises :
@@ -135,3 +144,9 @@ Theorem C06_outfilter_whitelist :
   forall c, In c gen.T06.FILTER_COMMANDS -> In c validated_out_filters.
 Proof. exact whitelist_validated. Qed.
 Print Assumptions C06_outfilter_whitelist.
+
+(* The side conditions of C06_ctor_line never depend on users: apart from the reviewed sites, every IrcMsg(...)
+   call in src/ and plugins/ has a literal command, no user-supplied prefix and no server_tags (regenerated). *)
+Theorem C06_ctor_sites : gen.T06.KWCTOR_ODD = reviewed_kwctor.
+Proof. exact kwctor_sites. Qed.
+Print Assumptions C06_ctor_sites.
